@@ -20,6 +20,9 @@ REASONS = {
         'guarded by `self.content != 0`; ids stored in the model are allocated by the reader/deserializer together with the entry they name (R04.5, W1); callers filter the null id 0 (C01 R01.3/R01.4, Fsm::executeContent)',
     '<executable_content::If as executable_content::ExecutableContent>::execute|unwrap|unwrap<-get|2':
         'guarded by `self.else_content != 0`; ids stored in the model are allocated by the reader/deserializer together with the entry they name (R04.5, W1); callers filter the null id 0 (C01 R01.3/R01.4, Fsm::executeContent)',
+    '<executable_content::ForEach as executable_content::ExecutableContent>::execute::{closure#0}|unwrap|unwrap<-get|1':
+        'guarded by `self.content != 0`; ids stored in the model are allocated by the reader/deserializer together with the entry they name (R04.5, W1) '
+        '(edge visible since closures passed as `&mut dyn FnMut` are linked to the receiving call in the call graph)',
     'fsm::HashTable::<K, T>::get|unwrap|unwrap<-get|1':
         'both callers (enterStates, addDescendantStatesToEnter/getEffectiveTargetStates) test has() first (C06 R06.3/R06.4)',
     'fsm::List::<T>::tail|vec-remove|remove|1':
